@@ -47,6 +47,9 @@ def gen(tier, rng, scale):
             else:
                 k = "i" if r < 45 else ("o" if r < 72 else "s")
                 step = rng.choice([0, 0, 1, 2, 3, 7, I, I + 1, 3 * I, rng.below(50 * I + 1)])
+                if rng.chance(1, 12):
+                    # one sleep (or run) worth 2^31 .. 2^32 sampling intervals and more: counts at the limits of 32-bit integers
+                    step = rng.choice([2**31 - 1, 2**31, 2**31 + 5, 2**32 - 1, 2**32, 2**32 + 1, 2**33 + 7]) * I + rng.below(I)
                 t = min(2**64 - 1, t + step)
                 items.append([k, t])
         cases.append({"I": I, "items": items})
